@@ -5,7 +5,7 @@
    [reg_view x] = the (name, proxy) pairs session x has put into the global name table and not yet
    taken out (ctl.proxies, plus the entry of a handler or teardown step in flight);
    [earlier z x] = z was stored under the run id of x before x was (ghost Add order). *)
-From FRP Require Import Model.CtlMgr Proofs.CtlMgrProofs.
+From FRP Require Import Model.CtlMgr Proofs.CtlMgrProofs Proofs.C12SyncCheck gen.GenC12Sync.
 From Coq Require Import List NArith ZArith.
 Import ListNotations.
 Import CM.
@@ -172,6 +172,21 @@ Theorem C12_held_name_add_refused : forall cfg acts s x n p t y q pick,
     exists y1, alookup t (sessions st1) = Some y1 /\ s_spc y1 = SRollback n q.
 Proof. exact held_name_add_refused. Qed.
 Print Assumptions C12_held_name_add_refused.
+
+(* ---- the model's structural assumptions hold in today's source (reflective, tables regenerated
+   from server/control.go and server/proxy/proxy.go by translator/cmd/c12sync on every run):
+   NewProxy / CloseProxy / Ping handlers run synchronously in the read loop (so a session's requests
+   and its teardown are one sequential thread, as in the model); proxy.Manager.Add tests and inserts
+   inside ONE critical section of the write lock; ControlManager.Add looks up, calls Replaced and
+   stores inside one; ControlManager.Del is the identity-guarded delete under the lock ---- *)
+Theorem C12_source_matches_model_atomicity : c12_source_ok c12_handlers c12_crit = true.
+Proof. vm_compute. reflexivity. Qed.
+Print Assumptions C12_source_matches_model_atomicity.
+
+Theorem C12_sync_handlers_meaning : forall m, In m c12_sync_required ->
+  In (m, false) c12_handlers /\ ~ In (m, true) c12_handlers.
+Proof. apply handlers_ok_sound. vm_compute. reflexivity. Qed.
+Print Assumptions C12_sync_handlers_meaning.
 
 (* ---- the hypotheses are satisfiable: a chain of two simultaneous re-logins ---- *)
 (* session 0 logs in fresh (run id 7), registers name 1; sessions 1 and 2 re-login with run id 7
